@@ -1,13 +1,19 @@
 """C19 — Clock synchronisation recovers the affine map and only true event pairs (ibldsp.utils.sync_timestamps).
 
-Two ties between the code and the Lean model `IblVerif.SyncTs` (lean/IblVerif/Model/SyncTs.lean):
+Ties between the code and the Lean models `IblVerif.SyncTs` (lean/IblVerif/Model/SyncTs.lean, Model/SyncTsFull.lean):
 
-* exact: the index pairs returned by `sync_timestamps(..., return_indices=True)` against `SyncTs.sync`, the model of
-  the two matching passes over exact rationals.  The coarse offset `delta_t` and the intermediate map `fcn_a2b` are
-  external to the model (SciPy/NumPy); the harness recomputes them with the same calls (`_coarse`, `_fit`) and hands
-  them to the model as exact rationals (every float64 IS a dyadic rational).
-* numeric (what the theorems do not carry: recovery rate, millisecond tolerance, ppm): an oracle with ground truth
-  on the property's own input domain.
+* exact, matching passes: the index pairs returned by `sync_timestamps(..., return_indices=True)` against `SyncTs.sync`, the
+  model of the two matching passes over exact rationals, with the coarse offset `delta_t` and the intermediate map `fcn_a2b`
+  recomputed by the harness with the calls the code makes (`_coarse`, `_fit`) and handed over as exact rationals (every float64
+  IS a dyadic rational): no tolerance, events planted exactly at the threshold.
+* closed model: `SyncTs.syncClosedF` computes EVERYTHING from (tsa, tsb, tbin, linear) — histograms, cross-correlation, first
+  maximum, parabolic refinement, lag origin, threshold, both passes, np.polyfit as normal equations, interp1d as chord, drift —
+  and is compared with the real call: index pairs exactly (outside a float-sensitivity guard), drift_ppm, the returned map at
+  query points inside / outside the matched range and delta_t to stated tolerances.
+* translator tie (harness/tiespecs/c19.py, lean/IblVerif/Tie/C19.lean): threshold = tbin, drift_ppm = ab[0]*1e6 and the order of
+  the external calls of _interp_fcn per mode are re-read from the source text on every run and proved equal to the model's.
+* numeric (what the theorems do not carry: recovery rate, millisecond tolerance, ppm): an oracle with ground truth on the
+  property's own input domain.
 """
 import concurrent.futures
 import hashlib
@@ -39,6 +45,17 @@ THEOREMS = [
     'IblVerif.C19.lsq_minimiser_on_collinear',
     'IblVerif.C19.drift_and_linear_map_exact',
     'IblVerif.C19.interp_exact_on_collinear',
+    # closed model (coarse offset, fit and interpolant inside the model)
+    'IblVerif.C19.corr_peak_is_first_max',
+    'IblVerif.C19.coarse_offset_within_half_bin',
+    'IblVerif.C19.coarse_offset_exact_on_shifted_copy',
+    'IblVerif.C19.closed_is_sync',
+    'IblVerif.C19.closed_matching_injective',
+    'IblVerif.C19.closed_exact_copy',
+    'IblVerif.C19.fit_is_normal_equations',
+    'IblVerif.C19.closed_map_exact_on_collinear',
+    'IblVerif.C19.interp_through_samples',
+    'IblVerif.C19.linear_map_increasing',
 ]
 RULE = ('event trains built from a ground truth (true event times t_e, b = (1+ppm*1e-6)*t + offset, per-side jitter, '
         'events deleted per side), all times rounded to the 2^-20 s grid (exact float64): '
@@ -53,7 +70,13 @@ RULE = ('event trains built from a ground truth (true event times t_e, b = (1+pp
         '2^-10 grid, events planted exactly at the threshold on either side (all float operations exact); "small" = 0..5 '
         'events; "tbin" = other bin lengths.  "intsec" = whole-second trains (integer gaps, half with tbin = 1), "f32safe" = float32-exact trains (2^-10 grid below 4096 s without drift, or 2^-16 grid below 128 s with drift and jitter): the carriers of the dtype forms.  Every train is run in both modes, in a drawn input form (see ASSUMPTIONS), under one of four call protocols (single, repeat, mutate_returns, interleave; see run_sequence).  A case is non-trivial when at least one '
         'event is unmatched or matched in the second pass or a window held several candidates; distinct by the digest '
-        'of the two time vectors + mode + tbin.')
+        'of the two time vectors + mode + tbin.  The closed model (everything computed from (tsa, tsb, tbin, linear)) is run on every '
+        'train of at most 80 events in both modes and on the larger ones in one mode (alternating with the key), plus "special" trains '
+        'aimed at the coarse step: exact copies shifted by a whole number of bins (tbin 1/8, 1/4: delta_t = shift, pairs (i,i), drift 0 '
+        'and map x - shift demanded EXACTLY, theorem closed_exact_copy), decimal trains with events ON bin boundaries (tbin = 0.1, whole '
+        'milliseconds), several events per bin, events one grid step either side of a boundary, nearly periodic trains (several lags '
+        'with the maximal correlation), 1..3 events.  "externals": interp1d / np.polyfit themselves against the model\'s chord / normal '
+        'equations on exact dyadic samples (sorted and unsorted, queries at the samples, between, far outside).')
 ASSUMPTIONS = [
     'input forms: the form (dtype of tsa/tsb incl. mixed, strided / read-only / list layout, keyword vs positional spelling in the '
     'order (tsa, tsb, tbin, return_indices, linear), tbin as omitted / float / np.float64 / int / np.int64 / np.uint8, the '
@@ -68,9 +91,25 @@ ASSUMPTIONS = [
     '(index pairs; drift and mapping equal to the first call) and pass the oracle.  An argument overwritten in place is only a tag '
     '(info_argument_modified_in_place; it triggers a follow-up call on the same objects), and the protocol that overwrites the '
     'returned ia/ib between calls is informational (tag info_result_depends_on_returned_arrays): neither is a demand of C19',
-    'delta_t (peak of scipy.signal.correlate through parabolic_max) and the intermediate fcn_a2b (np.polyfit / '
+    'first tie (SyncTs.sync): delta_t (peak of scipy.signal.correlate through parabolic_max) and the intermediate fcn_a2b (np.polyfit / '
     'scipy interp1d) are inputs of the model; the harness recomputes them with the same calls as the code, a divergence '
-    'shows up as an index-pair disagreement',
+    'shows up as an index-pair disagreement.  Second tie (SyncTs.syncClosedF): nothing is an input, the harness copies only feed the '
+    'float-sensitivity guard',
+    'closed model, what is compared and when: the model works over exact rationals with the binning quotients (t - tmin)/tbin, floor '
+    'and ceil executed in IEEE double precision (Lean Float) exactly as NumPy does; scipy.signal.correlate is read as its textbook sum '
+    '(on 0/1 histograms a coincidence count).  (1) ties > 1 = the maximal correlation is attained at several lags: the code\'s '
+    'floating-point (FFT) correlation may prefer any of them, not compared (tag closed_corr_tie); (2) delta_t must agree with the '
+    'double-precision value to 1e-9 s; (3) index pairs are compared exactly unless a decision of the matching lies within 1e-7 s of its '
+    'boundary (tag closed_float_sensitive: the exact delta_t / fitted map differ from the double-precision ones by ~1e-13 / ~1e-10 s); '
+    '(4) drift_ppm to 1e-3 ppm and the returned map at 9 query points (matched events, midpoints, 3.7 s before the first and 11.3 s '
+    'beyond the last event) to 1e-8 s, only when the pairs agree and no array is float32 (the code then rounds in single precision; '
+    'with float32 arrays the pairs are compared only when delta_t agrees); (5) fewer than two distinct matched abscissae: the '
+    'model says `undetermined` (NumPy RankWarning / SciPy error or nan), not compared.  The deviations actually seen are written '
+    'to the evidence on every run',
+    'the theorems about the coarse step are about the binning over the rationals (SyncTs.coarse); the driver reports for every case '
+    'whether it puts every event in the same bin as the double-precision binning: it must whenever no quotient (t - tmin)/tbin is '
+    'within 1e-9 (relative) of an integer (tag closed_ratbins_agree / closed_ratbins_differ; whole-second or millisecond trains with '
+    'tbin = 0.1, whose double is a little above 1/10, legitimately differ)',
     'the model compares exact rationals, the code compares float64 differences: a case is compared only when it is '
     'exact-dyadic (all values multiples of 2^-30, so every float operation of the matching is exact) or when no comparison '
     'of the matching lies within 1e-9 s of its decision boundary (threshold or tie); skipped cases are counted under the '
@@ -80,7 +119,8 @@ ASSUMPTIONS = [
     'with events missing is matched equally well one period off — inherent ambiguity, not demanded; the shrinker of the '
     'failing-input search respects the same predicate (in_domain)',
     'numeric oracle (partial): every returned pair true, >= 95 % of the true pairs returned, |f(t) - true(t)| <= 1 ms at '
-    'held-out times (the true A-time of every event missing on either side, at any position incl. 0, 1, n-2, n-1, and 5 random times); '
+    'held-out times (the true A-time of every event missing on either side, at any position incl. 0, 1, n-2, n-1, and 5 random times; '
+    'a non-finite value of the map there is a failure); '
     'in interpolating mode a held-out time up to 60 s OUTSIDE the range of the matched a events is allowed 1 ms + J*(1 + 2*D/gap) '
     '(chord through the two end pairs `gap` apart, each within the jitter J of the true line, D = distance beyond the end pair), '
     '|drift - true| <= 0.05 ppm + the worst-case least-squares slope error for the bounded jitter of the case '
@@ -91,9 +131,17 @@ ASSUMPTIONS = [
     'lies outside the coarse window |tsa[i] - delta_t - tsb[j]| < tbin (the model comparison still is)',
 ]
 TRUSTED = [
-    'harness recomputation of delta_t and of the intermediate map (props/c19.py:_coarse, _fit) with the calls the code makes',
-    'np.polyfit returns a least-squares minimiser (the theorem fit_exact_on_collinear is about any minimiser / the normal equations)',
-    'scipy interp1d(kind=linear, fill_value=extrapolate) evaluates the chord through the two neighbouring samples',
+    'first tie: harness recomputation of delta_t and of the intermediate map (props/c19.py:_coarse, _fit) with the calls the code makes; '
+    'second tie (closed model): nothing recomputed, the copies only feed the float-sensitivity guard',
+    'scipy.signal.correlate(x, y, "full")[k] = sum_l x[l]*y[l-k+N-1] (textbook definition; its FFT evaluation is compared through '
+    'delta_t on every case, deviation ~1e-13 s)',
+    'np.polyfit returns a least-squares minimiser (the theorem fit_exact_on_collinear is about any minimiser / the normal equations; '
+    'the model\'s normal-equation solution is compared with np.polyfit itself on every run: externals sweep, drift_ppm, returned map)',
+    'scipy interp1d(kind=linear, fill_value=extrapolate) sorts its samples and evaluates the chord through the two neighbouring ones '
+    '(compared with the model\'s interpEval on every run: externals sweep, returned map)',
+    'Lean Float = IEEE double: -, /, floor, ceil of the binning quotients agree bit for bit with NumPy',
+    'translator tie: harness/pyfn2lean.py reads threshold, drift_ppm and the calls of _interp_fcn off the source text; a tie that '
+    'does not check only escalates the correspondence',
 ]
 
 GRID = 2.0 ** 20
@@ -784,8 +832,8 @@ def _check_result(spec, linear, tsa, true, res, fcn, drift, stats=None):
         stats['err'] = max(stats.get('err', 0.0), err)
         stats['dppm'] = max(stats.get('dppm', 0.0), abs(drift - spec['ppm']) / bound_ppm)
         stats['rec'] = min(stats.get('rec', 1.0), len(got) / max(len(true), 1))
-    if err > TOL_T:
-        w = int(np.argmax(dev / tol))
+    if not err <= TOL_T:          # a non-finite value of the returned map is not "within a millisecond"
+        w = int(np.argmax(np.where(np.isfinite(dev), dev / tol, np.inf)))
         return (f'mapping error {dev[w]:.3g} s at the held-out time {float(th0[w])!r} (allowed {tol[w]:.3g} s; matched a events span '
                 f'[{float(x.min())!r}, {float(x.max())!r}])')
     return None
@@ -838,7 +886,297 @@ def digest(c, linear):
     return h.hexdigest()[:16]
 
 
+# ---------------------------------------------------------------------------------------------
+# closed model (lean/IblVerif/Model/SyncTsFull.lean): the WHOLE function from (tsa, tsb, tbin, linear) alone — coarse offset
+# (histograms, cross-correlation, first maximum, parabolic refinement, lag origin), threshold, both passes, polyfit, interp1d,
+# drift — against the return values of the real call.  Nothing is recomputed by the harness for the model; the harness copies
+# `_coarse` / `_fit` only serve the float-sensitivity guard.
+# ---------------------------------------------------------------------------------------------
+CLOSED_MARGIN = 1e-7        # s: a decision of the matching closer than this to its boundary is float-sensitive for the closed model
+CLOSED_TOL_DELTA = 1e-9     # s: model delta_t (exact) against the double-precision delta_t
+CLOSED_TOL_PPM = 1e-3       # ppm: model drift (exact normal equations) against np.polyfit in double precision
+CLOSED_TOL_MAP = 1e-8       # s: returned map at the query points
+CLOSED_STATS = {}           # largest deviations seen on this run (written to the evidence)
+
+
+def _frac(s):
+    n, d = s.split('/')
+    return int(n) / int(d) if len(n) < 300 else float(__import__('fractions').Fraction(int(n), int(d)))
+
+
+def _parse_closed(ans):
+    """'ok k=v k=v ...' -> dict"""
+    return dict(p.split('=', 1) for p in ans.split()[1:])
+
+
+def closed_queries(tsa):
+    """Where the returned map is compared: at matched / unmatched events, between events, before the first and beyond the last
+    event (extrapolation), all on the 2^-20 s grid."""
+    tsa = np.asarray(tsa, float)
+    if tsa.size == 0:
+        return np.zeros(0)
+    n = tsa.size
+    q = [tsa[0], tsa[n // 2], tsa[-1], 0.5 * (tsa[0] + tsa[min(1, n - 1)]), 0.5 * (tsa[n // 2] + tsa[min(n // 2 + 1, n - 1)]),
+         tsa[0] - 3.7, tsa[0] - 0.01, tsa[-1] + 0.01, tsa[-1] + 11.3]
+    return grid(np.array(q))
+
+
+def closed_line(tsa, tsb, tb, linear, q):
+    K, (stb, sa, sb, sq) = encode([[tb], tsa, tsb, q])
+    return f'closed {K} {stb} {1 if linear else 0} {sa} {sb} {sq}'
+
+
+def near_bin_boundary(tsa, tsb, tb):
+    """Is some event within rounding of a bin boundary (so that the quotient (t - tmin) / tbin in double precision and over the
+    rationals may fall on different sides of an integer), or the span within rounding of a whole number of bins?"""
+    t = np.r_[tsa, tsb].astype(float)
+    qv = (t - t.min()) / tb
+    return bool(np.any(np.abs(qv - np.round(qv)) <= 1e-9 * np.maximum(1.0, np.abs(qv))))
+
+
+def judge_closed(ctx, desc, tags, ans, tsa, tsb, tb, linear, impl, fcn, drift, q, delta_h, margin, f64):
+    """Compare one answer of the `closed` op with the real call.  delta_h: the harness's double-precision delta_t (or None),
+    margin: smallest distance of a matching decision from its boundary (or None = not computed), f64: the call worked on float64 /
+    integer values (float32 forms round inside the code; only the pairs are compared then, and only when delta_t agrees)."""
+    if ans == 'undetermined':
+        ctx.case(desc, nontrivial=False, tags=tags + ['closed_undetermined'])
+        return
+    if ans.startswith('err'):
+        ctx.compare('closed model: outcome', desc, impl if impl.startswith('err') else impl[:80], ans, nontrivial=True, tags=tags + ['closed_error_branch'])
+        return
+    m = _parse_closed(ans)
+    tags = tags + ['closed_ratbins_agree' if m['ratbins'] == '1' else 'closed_ratbins_differ']
+    if m['ratbins'] != '1' and not near_bin_boundary(tsa, tsb, tb):
+        ctx.compare('closed model: rational binning = double-precision binning away from bin boundaries', dict(desc, op='ratbins'),
+                    'double: n, bins as executed', 'rational: different n or bins', nontrivial=True, tags=['closed_ratbins'])
+    if int(m['ties']) > 1:
+        # the maximal correlation is attained at several lags: the floating-point (FFT) correlation of the code may prefer any
+        ctx.case(desc, nontrivial=False, tags=tags + ['closed_corr_tie'])
+        return
+    delta_m = _frac(m['delta'])
+    if delta_h is not None:
+        ok = abs(delta_m - delta_h) <= CLOSED_TOL_DELTA
+        if ok:
+            CLOSED_STATS['delta'] = max(CLOSED_STATS.get('delta', 0.0), abs(delta_m - delta_h))
+        if not ok and not f64:
+            ctx.case(desc, nontrivial=False, tags=tags + ['closed_skip_float32_binning'])
+            return
+        ctx.compare('closed model: delta_t', dict(desc, op='delta_t'), 'ok' if ok else repr(delta_h), 'ok' if ok else repr(delta_m),
+                    nontrivial=True, tags=['closed_delta_t'])
+        if not ok:
+            return
+    if margin is not None and margin < CLOSED_MARGIN:
+        ctx.case(desc, nontrivial=False, tags=tags + ['closed_float_sensitive'])
+        return
+    model = f"ok ia={m['ia']} ib={m['ib']}"
+    ctx.compare('closed model: index pairs', desc, impl, model, nontrivial=True, tags=tags + ['closed_pairs'])
+    if impl != model or not f64 or fcn is None:
+        return
+    dm = _frac(m['drift'])
+    ok = abs(dm - drift) <= CLOSED_TOL_PPM
+    CLOSED_STATS['drift'] = max(CLOSED_STATS.get('drift', 0.0), abs(dm - drift))
+    ctx.compare('closed model: drift_ppm', dict(desc, op='drift'), 'ok' if ok else repr(drift), 'ok' if ok else repr(dm),
+                nontrivial=True, tags=['closed_drift'])
+    if q.size:
+        mv = np.array([_frac(x) for x in m['map'].split(',')])
+        try:
+            with warnings.catch_warnings(), np.errstate(all='ignore'):
+                warnings.simplefilter('ignore')
+                iv = np.asarray(fcn(q.copy()), float)
+            dev = np.abs(mv - iv)
+            w = int(np.argmax(dev))
+            ok = bool(dev[w] <= CLOSED_TOL_MAP)
+            CLOSED_STATS['map'] = max(CLOSED_STATS.get('map', 0.0), float(dev[w]))
+            got, want = (f'fcn({float(q[w])!r}) = {float(iv[w])!r}', f'{float(mv[w])!r}')
+        except Exception as e:  # noqa
+            ok, got, want = False, f'fcn raised {type(e).__name__}', 'values'
+        ctx.compare('closed model: returned map', dict(desc, op='map'), 'ok' if ok else got, 'ok' if ok else want,
+                    nontrivial=True, tags=['closed_map', 'closed_map_' + ('linear' if linear else 'interp')])
+
+
+def closed_selected(ctx, c):
+    """One mode per train (alternating with the key), both modes for trains of at most 80 events (cost grows with na * nb)."""
+    return c['tsa'].size <= 80 or (c['key'] % 2 == 0) == bool(c['linear'])
+
+
+def _closed_block(ctx, cases):
+    sel, lines = [], []
+    for c in cases:
+        if 'skip' in c or 'model_direct' in c or not closed_selected(ctx, c):
+            continue
+        if in_unsigned_class(c['tsa'], c['tsb'], c['true'], c['form']):
+            continue
+        c['q'] = closed_queries(c['tsa'])
+        lines.append(closed_line(c['tsa'], c['tsb'], c['theta'], c['linear'], c['q']))
+        sel.append(c)
+    for c, ans in zip(sel, _lean_parallel(ctx, lines)):
+        tsa, tsb = c['tsa'], c['tsb']
+        desc = {'key': c['key'], 'kind': c['kind'], 'linear': c['linear'], 'tbin': c['tbin'], 'na': int(tsa.size), 'nb': int(tsb.size),
+                'proto': c['proto'], 'form': form_text(c['form']), 'digest': digest(c, c['linear']), 'op': 'closed'}
+        tags = ['closed', 'closed_' + ('linear' if c['linear'] else 'interp'), 'closed_' + c['kind']]
+        da, db = dtypes_of(c['form'])
+        f64 = 'float32' not in (da, db)
+        margin = None
+        if c.get('fa') is not None:
+            margin = float_margin(tsa, tsb, c['delta'], c['theta'], c['fa'], c['ib1'])
+        judge_closed(ctx, desc, tags, ans, tsa, tsb, c['theta'], c['linear'], c['impl'], c['fcn'], c['drift'], c['q'],
+                     c.get('delta'), margin, f64)
+
+
+def special_train(rng, which):
+    """Trains aimed at the coarse step -> (tsa, tsb, tbin).
+      shiftcopy   tsa = tsb + s*tbin exactly (tbin = 1/8 or 1/4, times on the 2^-10 grid): delta_t = s*tbin, every pair returned
+      decimal     the same with tbin = 0.1 and times in whole milliseconds: events ON bin boundaries of the decimal grid
+                  (double-precision binning differs from the rational one)
+      twoperbin   several events per bin (x[idx] = 1 sets a bin once)
+      straddle    pairs of events one grid step on either side of a bin boundary
+      nearperiodic  a periodic train with a few events moved: several lags with (almost) the maximal correlation
+      tiny        1..3 events per side (edges of the correlation vector, undetermined fits)"""
+    if which in ('shiftcopy', 'twoperbin', 'straddle'):
+        tbin = float(rng.choice([0.125, 0.25]))
+        n = int(rng.choice([2, 3, 5, 30, 31, 120, 300]))
+        gaps = rng.integers(4, 80, n) * tbin + rng.integers(0, 128, n) / 1024.0
+        if which == 'twoperbin':
+            gaps[rng.choice(n, max(1, n // 4), replace=False)] = rng.integers(1, 100, max(1, n // 4)) / 1024.0
+        b = np.cumsum(gaps) + float(rng.integers(0, 50))
+        if which == 'straddle':
+            k = rng.choice(n, max(1, n // 3), replace=False)
+            b[k] = np.round(b[k] / tbin) * tbin + rng.choice([-1, 0, 1], k.size) / 1024.0
+            b = np.unique(b)
+        s = int(rng.integers(-60, 61))
+        a = b + s * tbin
+        if which != 'shiftcopy' and rng.integers(0, 2):
+            a = np.delete(a, rng.choice(a.size, min(2, a.size - 1), replace=False)) if a.size > 2 else a
+        return np.sort(a), np.sort(b), tbin
+    if which == 'decimal':
+        n = int(rng.choice([3, 30, 100, 300]))
+        b = np.cumsum(rng.integers(5, 100, n)) / 10.0 + rng.choice([0.0, 0.05, 0.001], n)
+        b = np.round(b * 1000) / 1000
+        s = int(rng.integers(-300, 301))
+        a = np.round((b + s * 0.1) * 1000) / 1000
+        return a, b, None
+    if which == 'nearperiodic':
+        n = int(rng.integers(6, 40))
+        b = np.arange(n) * 2.0 + 5.0
+        a = b + float(rng.integers(-3, 4)) * 2.0 + 0.03125
+        k = rng.choice(n, 2, replace=False)
+        a[k] += rng.choice([0.5, 0.75, 1.0], 2)
+        return np.sort(a), b, 0.125
+    n1, n2 = (int(x) for x in rng.integers(1, 4, 2))
+    b = np.cumsum(rng.integers(4, 40, n2) / 8.0)
+    a = (b[:n1] if n1 <= n2 else np.r_[b, b[-1] + np.arange(1, n1 - n2 + 1) * 3.0]) + float(rng.integers(-8, 9)) / 8.0
+    return a, b, 0.125
+
+
+SPECIALS = ('shiftcopy', 'shiftcopy', 'decimal', 'twoperbin', 'straddle', 'nearperiodic', 'tiny')
+
+
+def _closed_special(ctx):
+    rng = ctx.subrng(19, 10 ** 6 + 1)
+    tb0 = default_tbin()
+    jobs, lines = [], []
+    for k in range(ctx.n(70, 700)):
+        which = SPECIALS[k % len(SPECIALS)]
+        a, b, tbin = special_train(rng, which)
+        tb = tb0 if tbin is None else tbin
+        for linear in (True, False):
+            q = closed_queries(a)
+            lines.append(closed_line(a, b, tb, linear, q))
+            jobs.append((which, k, a, b, tbin, tb, linear, q))
+    for (which, k, a, b, tbin, tb, linear, q), ans in zip(jobs, _lean_parallel(ctx, lines)):
+        err, fcn, drift, ia, ib = _call(a, b, tbin, linear)
+        impl = _canon(err, ia, ib)
+        desc = {'op': 'closed_special', 'class': which, 'k': k, 'linear': linear, 'tbin': tb, 'tsa': a.tolist() if a.size <= 6 else None,
+                'tsb': b.tolist() if b.size <= 6 else None, 'na': int(a.size), 'nb': int(b.size),
+                'digest': digest({'tsa': a, 'tsb': b, 'tbin': tbin}, linear)}
+        tags = ['closed_special', 'closed_special_' + which]
+        delta_h = margin = None
+        try:
+            delta_h = float(_coarse(a, b, tb))
+            with warnings.catch_warnings():
+                warnings.simplefilter('ignore')
+                ib1 = np.array([int(x) for x in ctx_pass1(delta_h, tb, a, b)], dtype=np.int32)
+                f = _fit(a, b, ib1, linear)
+                fa = np.asarray(f(a), float) if np.any(ib1 < 0) else a.copy()
+            if np.all(np.isfinite(fa)):
+                margin = float_margin(a, b, delta_h, tb, fa, ib1)
+        except Exception:  # noqa  tiny trains: the guard is not available, the outcome is compared as it is
+            pass
+        if which == 'shiftcopy' and ans.startswith('ok') and a.size == b.size:
+            # theorem coarse_offset_exact_on_shifted_copy, on the double-precision binning the driver runs (dyadic: both agree)
+            m = _parse_closed(ans)
+            s_true = float(a[0] - b[0])
+            ident = ','.join(str(i) for i in range(a.size))
+            ok = (m['ties'] == '1' and _frac(m['delta']) == s_true and m['ratbins'] == '1' and m['ia'] == ident and m['ib'] == ident
+                  and _frac(m['drift']) == 0.0 and all(_frac(x) == float(v) - s_true for x, v in zip(m['map'].split(','), q)))
+            ctx.compare('closed model: exact shifted copy (theorem closed_exact_copy: delta_t = shift, pairs (i, i), drift 0, map x - shift)',
+                        dict(desc, op='shiftcopy'), 'ok',
+                        'ok' if ok else f"delta={m['delta']} ties={m['ties']} ratbins={m['ratbins']} drift={m['drift']} shift={s_true!r} ia={m['ia'][:40]}",
+                        nontrivial=True, tags=['closed_shiftcopy_exact'])
+        judge_closed(ctx, desc, tags, ans, a, b, tb, linear, impl, fcn, drift, q, delta_h, margin, True)
+
+
+def ctx_pass1(delta, theta, tsa, tsb):
+    """First pass of the matching on float64 values, for the float-sensitivity guard of the special trains only (the code's
+    loop, transcribed; the model comparison itself never uses it)."""
+    ib = np.zeros(tsa.shape, dtype=np.int32) - 1
+    for m in range(tsa.shape[0]):
+        dt = np.abs(tsa[m] - delta - tsb)
+        inds = np.where(dt < theta)[0]
+        if inds.size == 1:
+            ib[m] = inds[0]
+        elif inds.size > 1:
+            cand = inds[~np.isin(inds, ib[:m])]
+            if cand.size == 1:
+                ib[m] = cand[0]
+            elif cand.size > 1:
+                ib[m] = inds[np.argmin(dt[inds])]
+    return ib
+
+
+def _externals_sweep(ctx):
+    """The model's reading of the two external calls of _interp_fcn against the libraries themselves, on exact dyadic data:
+    interp1d(xs, ys, fill_value="extrapolate") = chord through the neighbouring samples (at the samples, between, outside, unsorted
+    input), np.polyfit(xs, ys, 1) = normal equations."""
+    import scipy.interpolate
+    rng = ctx.subrng(19, 10 ** 6 + 2)
+    lines, want = [], []
+    for k in range(ctx.n(150, 1500)):
+        n = int(rng.choice([2, 2, 3, 5, 20, 60]))
+        xs = np.cumsum(rng.integers(1, 200, n)) / 16.0 + float(rng.integers(-100, 100))
+        ys = xs * float(rng.choice([1.0, 1.0001, 0.5, -2.0])) + rng.integers(-64, 64, n) / 64.0 * float(rng.choice([0.0, 1.0]))
+        if k % 3 == 0:
+            perm = rng.permutation(n)
+            xs, ys = xs[perm], ys[perm]
+        xsrt = np.sort(xs)
+        q = np.r_[xsrt[0], xsrt[-1], xsrt[n // 2], xsrt[0] - 7.25, xsrt[-1] + 1000.5, 0.5 * (xsrt[0] + xsrt[1]),
+                  rng.integers(int(xsrt[0] * 16) - 50, int(xsrt[-1] * 16) + 50, 4) / 16.0]
+        K, (sx, sy, sq) = encode([xs, ys, q])
+        lines.append(f'interp {K} {sx} {sy} {sq}')
+        with warnings.catch_warnings():
+            warnings.simplefilter('ignore')
+            want.append(('interp1d', np.asarray(scipy.interpolate.interp1d(xs, ys, fill_value='extrapolate')(q), float), q))
+        lines.append(f'fit {K} {sx} {sy}')
+        with warnings.catch_warnings():
+            warnings.simplefilter('ignore')
+            want.append(('polyfit', np.asarray(np.polyfit(xs, ys, 1), float), None))
+    for ln, (what, lib, q), ans in zip(lines, want, ctx.lean(lines)):
+        if not ans.startswith('ok'):
+            ctx.compare('externals: ' + what, {'op': ln[:100]}, 'values', ans, nontrivial=True, tags=['ext_' + what])
+            continue
+        if what == 'interp1d':
+            mv = np.array([_frac(x) for x in ans[3:].split(',')])
+        else:
+            mv = np.array([_frac(x) for x in ans[3:].split()])
+        tol = 1e-9 * (1.0 + np.abs(mv))
+        ok = bool(np.all(np.abs(mv - lib) <= tol))
+        ctx.compare('externals: ' + what, {'op': ln[:100]}, 'ok' if ok else repr(lib.tolist()), 'ok' if ok else repr(mv.tolist()),
+                    nontrivial=True, tags=['ext_' + what])
+
+
+
 def correspondence(ctx):
+    CLOSED_STATS.clear()
     tb0 = default_tbin()
     ctx.note(f'default tbin read from the signature of sync_timestamps: {tb0!r}')
     ntrain = ctx.n(230, 2600)
@@ -972,6 +1310,10 @@ def correspondence(ctx):
             ctx.compare('oracle (ground truth)', d2, 'ok' if r is None else r, 'ok', nontrivial=True,
                         tags=['oracle', 'oracle_' + ('linear' if linear else 'interp')])
     ctx.note(f'cases skipped as float-sensitive: {nskip}')
+    import time
+    t0 = time.time()
+    _closed_block(ctx, cases)
+    t_closed = time.time() - t0
     ctx.note('oracle calibration on this run: max held-out error %.3g s (tolerance 1e-3), max drift deviation / allowed %.3g, '
              'min recovery %.4f (required 0.95)' % (stats.get('err', 0), stats.get('dppm', 0), stats.get('rec', 1)))
     # --- parabolic_max against the model (exact fraction vs float64, 1e-12)
@@ -1007,6 +1349,13 @@ def correspondence(ctx):
     for ln, a, m in zip(lines, impl, ctx.lean(lines)):
         ctx.compare('bin vector', {'op': ln[:120]}, a, 'ok' if m.endswith('inrange=1') else 'err IndexError',
                     nontrivial=True, tags=['bins'])
+    t0 = time.time()
+    _closed_special(ctx)
+    _externals_sweep(ctx)
+    ctx.note('wall time of the closed-model comparison: %.1f s on the generated trains, %.1f s special trains + externals' % (t_closed, time.time() - t0))
+    ctx.note('closed model calibration on this run: max |delta_t - model| %.3g s (tolerance %g), max |drift_ppm - model| %.3g ppm '
+             '(tolerance %g), max |fcn(q) - model| %.3g s (tolerance %g)' % (CLOSED_STATS.get('delta', 0), CLOSED_TOL_DELTA,
+             CLOSED_STATS.get('drift', 0), CLOSED_TOL_PPM, CLOSED_STATS.get('map', 0), CLOSED_TOL_MAP))
 
 
 # ---------------------------------------------------------------------------------------------
@@ -1186,12 +1535,36 @@ LEVEL_TEXT = ('Lean 4 theorems over exact rationals about the model of both matc
               'all other pairs outside the window — derived from affine clocks + bounded jitter + minimal gap) the returned pairs are '
               'exactly the true correspondences; least squares / the chord interpolant on exactly affine data return the true line, '
               'hence drift_ppm = (alpha-1)*1e6 and the map is exact at held-out points; the bin vector holds every event (F16); the '
-              'parabolic peak stays within half a bin. The model is tied to the code by an exact comparison of the returned index '
-              'pairs on generated trains.')
+              'parabolic peak stays within half a bin. CLOSED MODEL (coarse offset, fit and interpolant computed inside the model, '
+              'Model/SyncTsFull.lean): the lag found on the sorted bin differences is the first maximum of the 0/1 cross-correlation over '
+              'ALL lags (corr_peak_is_first_max); delta_t lies within half a bin of lag*tbin for every pair of trains '
+              '(coarse_offset_within_half_bin); for an exact copy shifted by s bins the maximum is unique, at s, symmetric, and delta_t = '
+              's*tbin exactly (coarse_offset_exact_on_shifted_copy); the closed model IS sync with Delta, theta = tbin and fmap filled in '
+              '(closed_is_sync), so injectivity / threshold / exact-pairs theorems hold of it; end to end on exact copies with events one '
+              'bin apart it returns the pairs (i,i) of all events, drift 0 and the exact map in both modes (closed_exact_copy); the '
+              'executable fit is the normal-equation solution (fit_is_normal_equations); on exactly affine matches both modes return the '
+              'true map everywhere and hence agree, drift = (alpha-1)*1e6 (closed_map_exact_on_collinear); the interpolant passes through '
+              'every matched pair (interp_through_samples); the linear map is strictly increasing when matched b times increase with '
+              'matched a times (linear_map_increasing). Ties to the code: exact comparison of the returned index pairs (matching passes '
+              'with harness-recomputed externals; closed model with nothing recomputed), drift / map / delta_t of the closed model to '
+              'stated tolerances, and a translator tie re-reading threshold = tbin, drift_ppm = ab[0]*1e6 and the external calls of '
+              '_interp_fcn per mode from the source text on every run (Tie/C19.lean).')
 LEVEL_NOTE = ('partial: recovery rate (>= 95 %), the 1 ms held-out tolerance and the ppm accuracy under jitter are measured by a ground-truth '
-              'oracle, not proved; delta_t (scipy correlate + parabolic_max) and the intermediate polyfit/interp1d are inputs of the model '
-              '(recomputed by the harness with the same calls); the separation hypothesis of pass1_sound is not implied by the quantifier '
-              'at drift*duration > tbin, where the second pass relies on the fitted map (hypothesis of pass2_sound) — known finding '
-              'interp-extrapolation shows it can fail for linear=False')
-TECHNIQUE = ('Lean 4 proofs by induction over the assignment loops (core Lean, Rat) + Mathlib field/ordered-field algebra for least squares; '
-             'exact differential run of the index pairs (float64 values passed as exact dyadic rationals) + numeric ground-truth oracle')
+              'oracle, not proved. delta_t, polyfit and interp1d are now computed inside the (closed) model and compared with the real call, '
+              'but that the correlation peak is the TRUE offset bin is proved only for exact copies shifted by whole bins; for trains with '
+              'missing events, jitter and drift only the general bound |delta_t - lag*tbin| <= tbin/2 is proved and the accuracy of the '
+              'lag is covered by the oracle. The coarse-step theorems are about the binning over the rationals; the code (and the driver) '
+              'bin in double precision, which differs for events within rounding of a bin boundary (counted per run, checked to agree '
+              'elsewhere). scipy.signal.correlate (FFT) / np.polyfit (QR) / interp1d are read as their textbook definitions and compared '
+              'numerically (1e-9 s, 1e-3 ppm, 1e-8 s), not proved; cases where the maximal correlation is attained at several lags are '
+              'not compared. Monotonicity is proved for the linear map only; for the interpolating map only that it passes through the '
+              'matched pairs. The separation hypothesis of pass1_sound is not implied by the quantifier at drift*duration > tbin, where '
+              'the second pass relies on the fitted map (hypothesis of pass2_sound) — known finding interp-extrapolation shows it can fail '
+              'for linear=False. Translator tie: narrow — the shared translator cannot read the bin-count expression (argument of np.zeros), '
+              'the delta_t expression (subscripted call parabolic_max(...)[0]), the loops (for m in np.arange(..), while ~np.all(..)), '
+              'lambdas and np.double(bool) of parabolic_max; those parts are tied by the closed-model correspondence only.')
+TECHNIQUE = ('Lean 4 proofs by induction over the assignment loops, the sorted-difference table of the cross-correlation and the segment '
+             'search of the interpolant (core Lean, Rat, List) + Mathlib field/ordered-field/Finset algebra for least squares; exact '
+             'differential run of the index pairs (float64 values passed as exact dyadic rationals; closed model with IEEE binning) + '
+             'tolerance comparison of drift / map / delta_t + translator tie (source text -> Lean, proved equal to the model) + numeric '
+             'ground-truth oracle')
